@@ -381,6 +381,23 @@ func runC16(c map[string]interface{}) []Event {
 				e["out"] = "err:" + fmt.Sprint(e["out2"])
 			}
 			evs = append(evs, e)
+		case "decodeg": // the row is read for its geometry alone
+			e := Event{"ev": "decodeg", "more": false, "err": ""}
+			e["g"] = map[string]interface{}{"t": "nil", "m": []interface{}{}}
+			e["out"] = safely(func() {
+				g, _, more := dec.DecodeRowFields()
+				e["more"] = more
+				if more {
+					if g != nil {
+						e["g"] = encGeom(g, c16CoordEnc)
+					}
+					row++
+				}
+				if err := dec.Error(); err != nil {
+					e["err"] = err.Error()
+				}
+			})
+			evs = append(evs, e)
 		case "decode":
 			e := Event{"ev": "decode", "more": false, "g": noGeom, "id": 0, "name": -1, "val": -1, "valdiff": 1 << 30, "err": ""}
 			noG := map[string]interface{}{"t": "nil", "m": []interface{}{}}
@@ -535,7 +552,12 @@ func randomC16(rng *rand.Rand, n int) []map[string]interface{} {
 				"name": 1 + rng.Intn(len(c16Names)), "val": 1 + rng.Intn(len(c16Floats))}})
 		}
 		ops = append(ops, map[string]interface{}{"op": "close"}, map[string]interface{}{"op": "open"})
+		gonly := rng.Intn(3) == 0 // some files have a quarter of their rows read for the geometry alone
 		for r := 0; r <= nrec; r++ {
+			if gonly && r < nrec && rng.Intn(4) == 0 {
+				ops = append(ops, map[string]interface{}{"op": "decodeg"})
+				continue
+			}
 			ops = append(ops, map[string]interface{}{"op": "decode"})
 		}
 		out[i] = map[string]interface{}{"kind": "shp", "ops": ops}
